@@ -15,7 +15,7 @@ FUNCTIONS = ["ibldsp.utils.WindowGenerator.__init__", "WindowGenerator.firstlast
              "WindowGenerator.firstlast_splicing", "WindowGenerator.slice", "WindowGenerator.tscale"]
 ASSUMPTIONS = [
     "1 <= ns, 1 <= nswin, 0 <= overlap < nswin (the property's precondition), and at most K windows (stated bound; a path needing more is inconclusive, not a pass)",
-    "floats as exact reals in the window-count formula and tscale (values are far below 2^53)",
+    "floats as exact reals in the window-count formula and tscale (values are far below 2^53); additionally the window-count formula is decided in exact IEEE double arithmetic (cvc5) for lengths < 64 / windows < 16 (quick), < 512 / < 64 (thorough)",
     "splicing: the Hann ramp is modelled as free reals w_i constrained only by the code's own assertion w_i + w_(ov-1-i) == 1 and 0<=w_i<=1; overlap is concrete per case",
 ]
 OUTSIDE = ["more than K windows per signal", "scipy.signal.windows.hann numerics (only its symmetry, which the code asserts, is used)"]
@@ -154,11 +154,38 @@ def case_splicing(ctx, K, overlap):
     return n
 
 
+def case_nwin_ieee(ctx, bits_ns, bits_win):
+    """the announced count, with the float formula evaluated in IEEE double arithmetic (cvc5), equals the produced count"""
+    from symex import fp
+    import ibldsp.utils as u
+    W = 16                                   # working width: no overflow for the stated sizes
+    arrays.KEEP_BV_INT[0] = 64
+    try:
+        ns = z3.BitVec("ns", W)
+        nswin = z3.BitVec("nswin", W)
+        ov = z3.BitVec("overlap", W)
+        for nme, t in (("ns", ns), ("nswin", nswin), ("overlap", ov)):
+            ctx.inputs[nme] = t
+        ctx.solver.add(z3.ULE(1, ns), z3.ULT(ns, 1 << bits_ns), z3.ULE(1, nswin), z3.ULT(nswin, 1 << bits_win), z3.ULT(ov, nswin))
+        wg = ctx.call("window_generator", u.WindowGenerator, core.SBV(ns, True), core.SBV(nswin, True), core.SBV(ov, True))
+        nwin = wg.nwin
+        stride = nswin - ov
+        produced = z3.If(z3.ULE(ns, nswin), z3.BitVecVal(1, W), z3.UDiv(ns - nswin + stride - 1, stride) + 1)
+        got = nwin.t if isinstance(nwin, core.SBV) else z3.BitVecVal(int(nwin), W)
+        if got.size() != W:
+            got = z3.Extract(W - 1, 0, got)
+        fp.oblige_fp(ctx, "nwin_float_formula_equals_produced_count", got == produced, {"ns": ns, "nswin": nswin, "overlap": ov}, timeout_s=1500)
+    finally:
+        arrays.KEEP_BV_INT[0] = 0
+
+
 def cases(tier):
     K = bounds(tier)["max_windows_K"]
     cs = [Case("firstlast", "case_firstlast", {"K": K}), Case("valid", "case_valid", {"K": K})]
     for ov in bounds(tier)["splicing_overlaps"]:
         cs.append(Case(f"splicing_ov{ov}", "case_splicing", {"K": min(K, 6), "overlap": ov}))
+    b = (6, 4) if tier == "quick" else (9, 6)     # lengths below 2^b[0], windows below 2^b[1]
+    cs.append(Case(f"nwin_ieee_{b[0]}_{b[1]}", "case_nwin_ieee", {"bits_ns": b[0], "bits_win": b[1]}, timeout_s=3000))
     return cs
 
 
@@ -183,7 +210,14 @@ ns, nswin, overlap = {ns}, {nswin}, {ov}
 obligation = {cex['obligation']!r}
 wg = WindowGenerator(ns, nswin, overlap)
 """
-    if case == "firstlast":
+    if case.startswith("nwin_ieee"):
+        body += """
+wins = list(wg.firstlast)
+print('nwin', wg.nwin, 'produced', len(wins))
+if wg.nwin != len(wins): reproduced(f'nwin={wg.nwin} but {len(wins)} windows are produced for ns={ns} nswin={nswin} overlap={overlap}')
+not_reproduced()
+"""
+    elif case == "firstlast":
         body += """
 wins = list(wg.firstlast)
 n = len(wins)
